@@ -1,0 +1,26 @@
+//go:build verif
+
+// Contracts for package cidutil, checked by /verif (govc). Comment-only.
+package cidutil
+
+// ---------------------------------------------------------------------------------------------
+// C13 (and every property that relies on content ids): an id verifies for some bytes exactly when it
+// is, character for character, the canonical id NewCidFromBytes computes for those bytes (CIDv1,
+// dag-cbor, sha2-256) - no other spelling of the same digest is accepted.  Hashing and the id
+// encoding are deterministic library leaves.
+//@ package github.com/multiformats/go-multihash
+//@ func Sum
+//@   pure
+//@ package github.com/ipfs/go-cid
+//@ func NewCidV1
+//@   pure
+//@ func (Cid).String
+//@   pure
+//@ package github.com/anyproto/any-sync/util/cidutil
+//@ def canonicalId(data) = cid.NewCidV1(113, multihash.Sum(data, 18, 0 - 1)).String()
+//@ func NewCidFromBytes
+//@   modifies nothing
+//@   ensures [canonical] result1 == nil ==> result0 == canonicalId(data) && multihash.Sum#1(data, 18, 0 - 1) == nil
+//@ func VerifyCid
+//@   modifies nothing
+//@   ensures [exactly_canonical_id] result <==> (multihash.Sum#1(data, 18, 0 - 1) == nil && id == canonicalId(data))
